@@ -29,6 +29,13 @@ let catalogue : (string * piece list) array = [|
   "do",        [ T "d"; B " do 1 + 2 "; T "t" ];
   "nested",    [ B " for i in items "; B " if i == 1 "; T "one"; B " else "; V " i "; B " endif "; T ","; B " endfor " ];
   "comment",   [ T "a "; V " a "; T " "; T "b" ];
+  (* nothing between the delimiters (and their dashes) and the content: a digit, a name, a string, a bracket *)
+  "tight-print", [ T "total: "; V "7"; T " . "; V "a"; T " , "; V "7 "; T " ; "; V " 7"; T " : "; V "a|upper"; T " ! "; V "'q'"; T " ? "; V "(7)"; T " / "; V "[7][0]" ];
+  "tight-block", [ T "s "; B "if a"; T " yes "; B "else"; T " no "; B "endif"; T " e "; B "set z = 7"; T " "; V "z"; T " f" ];
+  "tight-for",   [ B "for i in items"; T " < "; V "i"; T " > "; B "endfor"; T " ." ];
+  (* the closing tag repeats the block's name *)
+  "block-named", [ T "[ "; B " block b "; T " body "; V " a "; T " "; B " endblock b "; T " ]" ];
+  "block-named-ext", [ B " extends 'base' "; B " block b "; T " child "; V " a "; T " "; B " endblock b " ];
 |]
 
 (* whitespace the dash removes, and whitespace-like bytes it must leave alone (no-break space, form
